@@ -386,6 +386,7 @@ int main(int argc, char **argv) {
         else if (!strcmp(argv[i], "--plan") && i + 1 < argc) o.planfile = argv[++i];
         else if (!strcmp(argv[i], "--sub") && i + 1 < argc) o.sub = argv[++i];
         else if (!strcmp(argv[i], "--trace")) o.trace = true;
+        else if (!strcmp(argv[i], "--base") && i + 1 < argc) o.base = strtoull(argv[++i], 0, 10);
     }
     if (replay) { s0 = 0; s1 = 1; }
     for (uint64_t seed = s0; seed < s1; seed++) {
